@@ -1,6 +1,7 @@
 package scen
 
 import (
+	"strings"
 	"bytes"
 	"crypto/ecdsa"
 	"fmt"
@@ -264,6 +265,50 @@ func c07Run(tier string) *c07Out {
 		}
 	}
 	out.samples = append(out.samples, map[string]interface{}{"kind": "contract call", "payload_len": 33, "scope_len": 32, "tokens": 2, "fees": 1})
+
+	// ---- (1b) every spelling of an address the hub admits (common.IsHexAddress: 0x.. / 0X.. / no prefix, any letter case)
+	// is the same 20 bytes to the contract: members, recipients, token contracts and logic-call targets
+	spell := func(a string, k int) string {
+		switch k {
+		case 1:
+			return "0X" + a[2:]
+		case 2:
+			return a[2:]
+		case 3:
+			return "0x" + strings.ToUpper(a[2:])
+		case 4:
+			return strings.ToLower(a)
+		}
+		return a
+	}
+	for k := 1; k <= 4; k++ {
+		gid := gids[2]
+		ss := &mhubtypes.SignerSetTx{Nonce: 3, Signers: []*mhubtypes.ExternalSigner{{Power: 1 << 31, ExternalAddress: spell(addr(0), k)}, {Power: 1 << 30, ExternalAddress: addr(1)}}}
+		if got, want := ckpt(out, "SignerSetTx.GetCheckpoint", func() []byte { return ss.GetCheckpoint(gid) }), refSignerSetDigest(gid, ss); !bytes.Equal(got, want) {
+			out.bad("checkpoint_differs_from_abi_spec", "SignerSetTx.GetCheckpoint", "member spelled %q: %x != %x", spell(addr(0), k), got, want)
+		}
+		for _, which := range []string{"recipient", "token"} {
+			b := &mhubtypes.BatchTx{BatchNonce: 2, Timeout: 900, ExternalTokenId: addr(3), Transactions: []*mhubtypes.SendToExternal{
+				{Id: 1, ExternalRecipient: addr(1), Token: mhubtypes.ExternalToken{Amount: sdk.NewInt(7)}, Fee: mhubtypes.ExternalToken{Amount: sdk.NewInt(1)}},
+				{Id: 2, ExternalRecipient: addr(2), Token: mhubtypes.ExternalToken{Amount: sdk.NewInt(9)}, Fee: mhubtypes.ExternalToken{Amount: sdk.NewInt(2)}}}}
+			if which == "recipient" {
+				b.Transactions[1].ExternalRecipient = spell(addr(2), k)
+			} else {
+				b.ExternalTokenId = spell(addr(3), k)
+			}
+			out.evals++
+			if got, want := ckpt(out, "BatchTx.GetCheckpoint", func() []byte { return b.GetCheckpoint(gid) }), refBatchDigest(gid, b); !bytes.Equal(got, want) {
+				out.bad("checkpoint_differs_from_abi_spec", "BatchTx.GetCheckpoint", "%s spelled %q: %x != %x", which, spell(addr(2), k), got, want)
+			}
+		}
+		cc := &mhubtypes.ContractCallTx{InvalidationNonce: 1, InvalidationScope: []byte("s"), Address: spell(addr(2), k), Payload: []byte{1, 2, 3}, Timeout: 50,
+			Tokens: []mhubtypes.ExternalToken{{Amount: sdk.NewInt(5), ExternalTokenId: spell(addr(1), k)}}, Fees: []mhubtypes.ExternalToken{{Amount: sdk.NewInt(2), ExternalTokenId: spell(addr(3), k)}}}
+		out.evals += 2
+		if got, want := ckpt(out, "ContractCallTx.GetCheckpoint", func() []byte { return cc.GetCheckpoint(gid) }), refCallDigest(gid, cc); !bytes.Equal(got, want) {
+			out.bad("checkpoint_differs_from_abi_spec", "ContractCallTx.GetCheckpoint", "addresses spelled like %q: %x != %x", spell(addr(2), k), got, want)
+		}
+	}
+	out.samples = append(out.samples, map[string]interface{}{"kind": "address spellings", "spellings": []string{"0X..", "no prefix", "upper-case digits", "lower case"}})
 
 	// ---- (3) signature scheme: ValidateEthereumSignature accepts exactly (digest, addr(key)), both v conventions
 	digs := [][]byte{crypto.Keccak256([]byte("d0")), crypto.Keccak256([]byte("d1")), make([]byte, 32), bytes.Repeat([]byte{0xff}, 32)}
